@@ -104,7 +104,7 @@ class EngineLedger:
 def next_request(kind, outcome):
     """What the client must do after `outcome` answered its request of type `kind`.
 
-    outcome: ("result",) | ("job",) | ("error", CODE) | ("break", retryable: bool, exception name)
+    outcome: ("result", run count) | ("job",) | ("error", CODE) | ("break", retryable: bool, exception name)
     -> ("send", kind) | ("return", "result" | "job") | ("raise", "StreamError") | ("raise", exception name)"""
     o = outcome[0]
     if o in ("result", "job"):
@@ -250,8 +250,8 @@ def check_stream_history(hist, submits, run_count):
                 v("wrong-future-outcome", "job %r: server answered %r, future ended as %s %r" % (job, final, fkind, fdetail))
             elif fdetail != job:
                 v("foreign-result", "the future of job %r resolved with the %s of %r" % (job, fkind, fdetail))
-            elif fkind == "result" and run_count.get(job) != 1:
-                v("job-ran-%s-times" % run_count.get(job), "a result was returned for %r whose run count is %r" % (job, run_count.get(job)))
+            elif fkind == "result" and len(final) > 1 and final[1] != 1:
+                v("job-ran-%s-times" % final[1], "a result was returned for %r which had run %r times" % (job, final[1]))
         elif expect[0] == "raise":
             if fkind != "exception" or fdetail[0] != expect[1]:
                 v("wrong-future-outcome", "job %r: documented outcome is %s, future ended as %s %r" % (job, expect[1], fkind, fdetail))
